@@ -214,6 +214,35 @@ impl<'a> Shrinker<'a> {
     }
 }
 
+/// Minimise an oracle-level violation (one operation, no schedule): smaller rule / data while the
+/// same clause still fails.
+pub fn shrink_oracle_level(target: &Violation, oracle: &mut Oracle, budget: usize) -> (Violation, usize) {
+    let mut best = target.clone();
+    let mut execs = 0;
+    let mut changed = true;
+    while changed && execs < budget {
+        changed = false;
+        let op = match &best.op {
+            Some(o) => o.clone(),
+            None => break,
+        };
+        for cand in op_candidates(&op) {
+            if execs >= budget {
+                break;
+            }
+            execs += 1;
+            let mut t = best.clone();
+            t.op = Some(cand);
+            if let Some(v) = e1::recheck_oracle_level(&t, oracle).into_iter().next() {
+                best = v;
+                changed = true;
+                break;
+            }
+        }
+    }
+    (best, execs)
+}
+
 fn switches(s: &[u8]) -> usize {
     s.windows(2).filter(|w| w[0] != w[1]).count()
 }
